@@ -32,7 +32,11 @@ import (
 	"errors"
 	"fmt"
 	"io"
+	"net"
+	"runtime"
 	"strings"
+	"syscall"
+	"time"
 
 	"github.com/talostrading/sonic"
 	"github.com/talostrading/sonic/codec/frame"
@@ -693,13 +697,155 @@ func codecPattern(i int) byte { return byte(i*7 + i>>11 + 13) }
 
 // codecDirect (thorough tier): payloads of limit-1 and limit bytes make the whole round trip through WriteNext and
 // ReadNext, cut inside the prefix and at arbitrary places; limit+1 is refused by WriteNext before anything is buffered.
+// codecRealTransport: the codec connection over a real sonic.Dial connection whose peer starts reading late, so that
+// asynchronous writes hit would-block in the middle of an item and are resumed by the poller (the in-memory transport of
+// the trace mode completes or refuses a write as scripted; here the kernel and the library's own write reactor decide).
+// Every item must arrive intact, in order, exactly once.
+func codecRealTransport(seed uint64, items, size int) (ok bool, why string) {
+	runtime.LockOSThread()
+	defer runtime.UnlockOSThread()
+	ioc, err := sonic.NewIO()
+	if err != nil {
+		return false, "newio"
+	}
+	defer ioc.Close()
+	ln, err := net.Listen("tcp", "127.0.0.1:0")
+	if err != nil {
+		return false, "listen"
+	}
+	defer ln.Close()
+	// small socket buffers, so that every item runs into would-block several times; the receive buffer is set on the listener
+	// (accepted sockets inherit it): shrinking it on an established loopback connection stalls every refill for ~600 ms
+	if rc, err := ln.(*net.TCPListener).SyscallConn(); err == nil {
+		_ = rc.Control(func(fd uintptr) { _ = syscall.SetsockoptInt(int(fd), syscall.SOL_SOCKET, syscall.SO_RCVBUF, 16384) })
+	}
+	conn, err := sonic.Dial(ioc, "tcp", ln.Addr().String())
+	if err != nil {
+		return false, "dial"
+	}
+	defer conn.Close()
+	peer, err := ln.Accept()
+	if err != nil {
+		return false, "accept"
+	}
+	defer peer.Close()
+	_ = syscall.SetsockoptInt(conn.RawFd(), syscall.SOL_SOCKET, syscall.SO_SNDBUF, 16384)
+	src, dst := sonic.NewByteBuffer(), sonic.NewByteBuffer()
+	cc, err := sonic.NewCodecConn[[]byte, []byte](conn, frame.NewCodec(src), src, dst)
+	if err != nil {
+		return false, "codecconn"
+	}
+	mk := func(i int) []byte {
+		b := make([]byte, size+i*7)
+		for j := range b {
+			b[j] = byte((j*31 + i*17 + int(seed)) % 251)
+		}
+		return b
+	}
+	type rres struct {
+		got [][]byte
+		err string
+	}
+	rc := make(chan rres, 1)
+	go func() {
+		time.Sleep(120 * time.Millisecond) // let the sender run into a full socket first
+		var out rres
+		hdr := make([]byte, 4)
+		for {
+			_ = peer.SetReadDeadline(time.Now().Add(5 * time.Second))
+			if _, err := io.ReadFull(peer, hdr); err != nil {
+				if err != io.EOF {
+					out.err = "peer read: " + err.Error()
+				}
+				break
+			}
+			n := int(binary.BigEndian.Uint32(hdr))
+			if n > 64<<20 {
+				out.err = fmt.Sprintf("nonsensical header after %d items: length %d", len(out.got), n)
+				break
+			}
+			b := make([]byte, n)
+			if _, err := io.ReadFull(peer, b); err != nil {
+				out.err = "peer read payload: " + err.Error()
+				break
+			}
+			out.got = append(out.got, b)
+		}
+		rc <- out
+	}()
+	idx, done, werr := 0, false, ""
+	var next func()
+	next = func() {
+		if idx == items {
+			done = true
+			return
+		}
+		it := mk(idx)
+		i := idx
+		idx++
+		cc.AsyncWriteNext(it, func(err error, n int) {
+			if err != nil {
+				werr = fmt.Sprintf("item %d: %v", i, err)
+				done = true
+				return
+			}
+			if dst.ReadLen() != 0 || dst.WriteLen() != 0 {
+				werr = fmt.Sprintf("item %d completed with %d+%d bytes left in the write buffer", i, dst.ReadLen(), dst.WriteLen())
+				done = true
+				return
+			}
+			next()
+		})
+	}
+	next()
+	deadline := time.Now().Add(20 * time.Second)
+	for !done && time.Now().Before(deadline) {
+		_ = ioc.RunOneFor(5 * time.Millisecond)
+	}
+	if tc, ok2 := interface{}(conn).(interface{ Close() error }); ok2 {
+		_ = tc.Close()
+	}
+	res := <-rc
+	switch {
+	case werr != "":
+		return false, werr
+	case !done:
+		return false, "the writes never completed"
+	case res.err != "":
+		return false, res.err
+	case len(res.got) != items:
+		return false, fmt.Sprintf("%d items arrived, %d were written", len(res.got), items)
+	}
+	for i, g := range res.got {
+		want := mk(i)
+		if len(g) != len(want) {
+			return false, fmt.Sprintf("item %d arrived with %d bytes instead of %d", i, len(g), len(want))
+		}
+		for j := range g {
+			if g[j] != want[j] {
+				return false, fmt.Sprintf("item %d differs at offset %d", i, j)
+			}
+		}
+	}
+	return true, ""
+}
+
 func codecDirect(seed uint64, tier string, args []string, w *bufio.Writer) {
+	fail := func(key, msg string) { fmt.Fprintf(w, "DIRECT-FAIL key=codec.%s %s\n", key, msg) }
+	{
+		n, size := 10, 300<<10
+		if tier == "thorough" {
+			n, size = 40, 1<<20
+		}
+		if ok, why := codecRealTransport(seed, n, size); !ok {
+			fail("real-transport", why)
+		}
+	}
 	if tier != "thorough" {
-		fmt.Fprintf(w, "DIRECT-STAT {\"codec_limit_roundtrip\": \"skipped (thorough tier only)\"}\n")
+		fmt.Fprintf(w, "DIRECT-STAT {\"codec_real_transport_items\": 10, \"codec_limit_roundtrip\": \"skipped (thorough tier only)\"}\n")
 		return
 	}
 	r := newRng(seed)
-	fail := func(key, msg string) { fmt.Fprintf(w, "DIRECT-FAIL key=codec.%s %s\n", key, msg) }
 	sizes := []int{frame.MaxPayloadLength - 1, frame.MaxPayloadLength}
 	done := 0
 	for _, size := range sizes {
